@@ -61,6 +61,7 @@ def explore(
     want=("c11", "c12", "c18", "c10", "c17", "c08"),
     rng: np.random.Generator | None = None,
     pre_run: dict | None = None,
+    second_crash: int = 0,
 ) -> dict:
     out = {
         "violations": [],
@@ -270,8 +271,17 @@ def explore(
             probe("crash_before_first_checkpoint")
             continue
         key = payload_digest(durable)
+        # a caller who survives the exception (no process death) may still hold the dictionary itself: the one the
+        # callback received, or sampler.last_checkpoint_state -- a different object from its pickled snapshot
+        live = None
+        if ck["mode"] == "callback" and c.live_states:
+            live = c.live_states[-1]
+        elif file_mode and c.sampler is not None and c.sampler.last_checkpoint_state is not None and n_ck_before > 0:
+            live = c.sampler.last_checkpoint_state
+        if key in states and live is not None:
+            states[key]["live"] = live  # keep the one from the LATEST crash point: the dying run had most time to touch it
         if key not in states:
-            st = {"payload": durable, "n": 0, "first": (seam, k, phase), "file": None}
+            st = {"payload": durable, "n": 0, "first": (seam, k, phase), "file": None, "live": live}
             if file_mode:
                 st["file"] = os.path.join(workdir, f"state_{len(states)}.h5")
                 shutil.copy(run_file, st["file"])
@@ -286,6 +296,8 @@ def explore(
         keep = sorted(rng.choice(len(st_list), size=max_states, replace=False).tolist())
         st_list = [st_list[i] for i in keep]
     use_routes = [r for r in routes if file_mode or r in ("bytes", "dict")]
+    if "dict" in use_routes:
+        use_routes = use_routes + ["dict_live"]
     for si, st in enumerate(st_list):
         ck_state = pickle.loads(st["payload"])
         it0 = ck_state.get("iteration")
@@ -293,9 +305,11 @@ def explore(
         if b0 is not None and float(b0) >= 1.0:
             probe("resumed_at_beta_1")
         for route in use_routes:
+            if route == "dict_live" and st.get("live") is None:
+                continue
             if st["file"] is not None:
                 shutil.copy(st["file"], run_file)
-            r = run_process(scn, workdir, resume=(route, st["payload"]), proc_no=1 + si)
+            r = run_process(scn, workdir, resume=(route, st["live"] if route == "dict_live" else st["payload"]), proc_no=1 + si)
             out["evaluations"] += 1
             out["resumes"] += 1
             out["events"] += len(r.trace.events)
@@ -342,6 +356,42 @@ def explore(
                 V += [_tag(v, route=route, resumed=True) for v in O.check_coherence(r, scn)[0]]
             if "c17" in want:
                 V += [_tag(v, route=route, resumed=True) for v in O.check_model_seam(r, scn)]
+    # ---------------- second crash inside the resumed run (file state between resume and the next checkpoint) ----------------
+    if second_crash and file_mode and "c12" in want:
+        for si, st in enumerate(st_list):
+            for route in ("resume_from_file", "path"):
+                shutil.copy(st["file"], run_file)
+                rr = run_process(scn, workdir, resume=(route, st["payload"]), proc_no=60, initial_file_payload=st["payload"])
+                out["evaluations"] += 1
+                if rr.status != "ok" or rr.model.n_like_calls == 0:
+                    continue
+                like_seq = [s_ for s_, k_, kw_ in rr.trace.events if k_ == "like"]
+                ck2 = [s_ for s_, k_, kw_ in rr.trace.events if k_ == "ckpt"]
+                n_calls = min(len(like_seq), second_crash)
+                for m in range(n_calls):
+                    shutil.copy(st["file"], run_file)
+                    c2 = run_process(scn, workdir, resume=(route, st["payload"]), crash=("like", m, "interrupt" if m % 2 else "model_error"),
+                                     proc_no=60, initial_file_payload=st["payload"])
+                    out["evaluations"] += 1
+                    if c2.status != "crashed":
+                        continue
+                    fired("crash_in_resumed_run")
+                    n_before = sum(1 for s_ in ck2 if s_ < like_seq[m])
+                    expected2 = rr.payloads[n_before - 1][2] if n_before else st["payload"]
+                    durable2 = read_file_checkpoint(run_file)
+                    w12 = {**where, "route": route, "second_crash": True, "every": ck.get("every")}
+                    if payload_digest(durable2) != payload_digest(expected2):
+                        V.append(violation(
+                            "c12.lost_after_resume",
+                            f"run resumed via {route} and interrupted again at its likelihood call {m} (before its next checkpoint): the file holds "
+                            f"{'no checkpoint' if durable2 is None else str(len(durable2)) + ' bytes'} instead of the checkpoint it was resumed from / last wrote",
+                            w12, m=m))
+                        break
+                    err = _loadable(run_file, scn)
+                    if err is not None:
+                        V.append(violation("c12.not_loadable", f"after a second crash (resumed via {route}, call {m}) the file cannot be resumed from: {err}", w12))
+                        break
+                    out["nontrivial_keys"].append([ck["mode"], ck.get("every"), "second_crash", route])
     # ---------------- double crash ----------------
     if double_crash and file_mode and st_list:
         rng = rng or np.random.default_rng(0)
